@@ -26,7 +26,7 @@ func c14Alphabet() []tStmt {
 		{Op: "has", Has: eq}, {Op: "hasLabel"}, {Op: "hasLabel", Strs: []string{"L"}}, {Op: "hasId"}, {Op: "hasId", Strs: []string{"a"}},
 		{Op: "hasKey"}, {Op: "hasKey", Strs: []string{"k"}},
 		{Op: "as", Str: "m"}, {Op: "as", Str: "n"}, {Op: "as", Str: ""}, {Op: "as", Str: "_gid"}, {Op: "as", Str: "a.b"}, {Op: "as", Str: "__current__"},
-		{Op: "select", Strs: []string{"m"}}, {Op: "select", Strs: []string{"m", "n"}}, {Op: "select", Strs: []string{"n"}}, {Op: "select"},
+		{Op: "select", Strs: []string{"m"}}, {Op: "select", Strs: []string{"m", "n"}}, {Op: "select", Strs: []string{"n"}}, {Op: "select"}, {Op: "select", Strs: []string{"m", "m"}},
 		{Op: "fields", Strs: []string{"x"}}, {Op: "render", Tpl: "$.x"}, {Op: "path"}, {Op: "unwind", Str: "x"},
 		{Op: "distinct"}, {Op: "count"}, {Op: "limit", N: 2}, {Op: "skip", N: 1}, {Op: "range", N: 0, M: 2},
 		{Op: "aggregate", Aggs: []tAgg{{Name: "a1", Kind: "count"}}},
@@ -223,7 +223,7 @@ func runC14(ctx *Ctx) error {
 	ctx.CaseTy = "c14_case"
 	ctx.Shard = 600
 	ctx.HasKF = true
-	ctx.Rule = "typing: EVERY statement sequence of length <= 3 (quick; 4 thorough over a reduced alphabet) over a 37-statement alphabet (every supported step; empty and non-empty id/label/key lists; valid, empty, reserved, dotted and __current__ mark names; selects of one / two / zero marks, defined and undefined; unique and duplicate aggregation names) plus the sequences that take one mark name twice with a type change in between (also followed by selects), plus random sequences up to length 8, compiled by core.NewCompiler and by the Mongo compiler (verif hook, no database); observed accept/reject, result type, mark types. filters: 12 operators x 17 scalar field values (absent, null, booleans, numbers, numeric and plain text) x 26 arguments (scalars, lists of every arity incl. wrong-typed bounds, a map) exhaustively, plus random and/or/not/unset nestings with empty lists to depth 3 (quick) / 5 (thorough) over keys x, y, missing, _label, _gid, n.k, $.x; observed: the bson filter document of convertHasExpression read back into the filter AST, and logic.MatchesHasExpression on the element; non-trivial = well-typed program of >= 2 statements / condition on a present value; distinct by input"
+	ctx.Rule = "typing: EVERY statement sequence of length <= 3 (quick; 4 thorough over a reduced alphabet) over a 38-statement alphabet (every supported step; empty and non-empty id/label/key lists; valid, empty, reserved, dotted and __current__ mark names; selects of one / two / zero marks, defined and undefined; unique and duplicate aggregation names) plus the sequences that take one mark name twice with a type change in between (also followed by selects), plus random sequences up to length 8, compiled by core.NewCompiler and by the Mongo compiler (verif hook, no database); observed accept/reject, result type, mark types. filters: 12 operators x 17 scalar field values (absent, null, booleans, numbers, numeric and plain text) x 26 arguments (scalars, lists of every arity incl. wrong-typed bounds, a map) exhaustively, plus random and/or/not/unset nestings with empty lists to depth 3 (quick) / 5 (thorough) over keys x, y, missing, _label, _gid, n.k, $.x; observed: the bson filter document of convertHasExpression read back into the filter AST, and logic.MatchesHasExpression on the element; non-trivial = well-typed program of >= 2 statements / condition on a present value; distinct by input"
 	var inputs []c14Input
 	if ctx.Replay != nil {
 		var in c14Input
